@@ -493,3 +493,63 @@ def unget_eof(prog):
                   et, (1 << (type_width(et) or 8)) - 1),
               'element type %s converts back to the int that was stored' % et, False)]
     return RuleResult('UNGET-EOF', obs, 1, {})
+
+
+def dup_global(prog):
+    """DUP-GLOBAL (C11): Symbols::append() rejects a second definition of a name found by find() whenever no scope is open:
+    the condition that guards the "already defined" exit evaluates to true under `in_scope == false`, whatever the other
+    operands are (three-valued evaluation of the condition tree).  Scopes only *permit* shadowing a global from inside a scope;
+    outside of one a duplicate is an error (current_scope never returns to 0 after the first `.scope`)."""
+    fn = prog.fn('Symbols::append')
+
+    def ev(n):
+        n = strip(n, casts=True)
+        k = n['k']
+        if k == 'BinaryOperator' and n.get('op') in ('||', '&&'):
+            a, b = ev(kids(n)[0]), ev(kids(n)[1])
+            if n['op'] == '||':
+                return True if (a is True or b is True) else (False if (a is False and b is False) else None)
+            return False if (a is False or b is False) else (True if (a is True and b is True) else None)
+        if k == 'UnaryOperator' and n.get('op') == '!':
+            v = ev(kids(n)[0])
+            return None if v is None else (not v)
+        if k == 'BinaryOperator' and n.get('op') in ('==', '!='):
+            l, r = strip(kids(n)[0], casts=True), strip(kids(n)[1], casts=True)
+            for x, y in ((l, r), (r, l)):
+                if x['k'] == 'MemberExpr' and x.get('n') == 'in_scope':
+                    c = const(y)
+                    if c is None and y['k'] == 'CXXBoolLiteralExpr':
+                        c = 1 if y.get('v') else 0
+                    if c is not None:
+                        return (c == 0) if n['op'] == '==' else (c != 0)
+            return None
+        if k == 'MemberExpr' and n.get('n') == 'in_scope':
+            return False
+        return None
+    obs = []
+    # the error exits under `entry != nullptr`: blocks that print "already defined"
+    for b, bb in sorted(fn.blocks.items()):
+        for e in bb['e']:
+            n = fn.nodes.get(e)
+            if n is None or n['k'] != 'CallExpr' or (callee(n) or '').split('(')[0] != 'printf':
+                continue
+            if not any(x['k'] == 'StringLiteral' and 'already defined' in (x.get('s') or '') for x in walk(n)):
+                continue
+            # innermost enclosing if
+            prev = n
+            guard = None
+            for anc in fn.ancestors(n):
+                if anc['k'] == 'IfStmt' and len(kids(anc)) >= 2 and kids(anc)[1] is not None and \
+                        any(x['i'] == n['i'] for x in walk(kids(anc)[1])):
+                    guard = kids(anc)[0]
+                    break
+            if guard is None:
+                continue
+            v = ev(guard)
+            obs.append(Ob('DUP-GLOBAL', fn.file, guard['l'], fn.q, 'already-defined-guard', DISCHARGED if v is True else VIOLATED,
+                          '' if v is True else 'with no scope open (`in_scope == false`) the guard `%s` of the "already defined" error is '
+                          'not necessarily true: a global label defined twice can be accepted' % show(guard)[:70],
+                          'true whenever in_scope is false', False))
+    if not obs:
+        raise AnalysisBroken('DUP-GLOBAL: no "already defined" exit in Symbols::append')
+    return RuleResult('DUP-GLOBAL', obs, 1, {})
